@@ -1561,9 +1561,9 @@ class Parameter(_ParameterBase):
                 self._validate(val)
             refs = obj._param__private.refs
             if ref is not None:
-                self.owner.param._update_ref(name, ref)
+                obj.param._update_ref(name, ref)
             elif name in refs and not syncing:
-                self.owner.param._update_ref(name, None)
+                obj.param._update_ref(name, None)
             if is_async or val is Undefined:
                 return
 
